@@ -325,10 +325,10 @@ def run(tier, seed, replay):
     if not okh:
         V.violation('build', dict(kind='build', log=logh), no_input=True)
         return V.finish('proof', dict(obligations=1, discharged=0, checker_cmd='cargo build', trusted_base=[], explanation='build failed'), assumptions)
-    okl, logl, dtl = vlib.build_lean(['driver', 'Rivia.Props.C02', 'Rivia.Props.C02M', 'Rivia.Props.C02R', 'Rivia.Props.C02T'])
+    okl, logl, dtl = vlib.build_lean(['driver', 'Rivia.Props.C02', 'Rivia.Props.C02M', 'Rivia.Props.C02R', 'Rivia.Props.C02T', 'Rivia.Props.C02RM'])
     proof_broken = []
     if okl:
-        A = vlib.audit('Rivia.Props.C02,Rivia.Props.C02M,Rivia.Props.C02R,Rivia.Props.C02T')
+        A = vlib.audit('Rivia.Props.C02,Rivia.Props.C02M,Rivia.Props.C02R,Rivia.Props.C02T,Rivia.Props.C02RM')
         if not A['ok']:
             proof_broken += A['problems']
     else:
@@ -336,7 +336,7 @@ def run(tier, seed, replay):
         proof_broken.append('lake build Rivia.Props.C02 failed: ' + logl[-1000:])
     lc = None
     if okl and tier == 'thorough':
-        okc, logc, dtc = vlib.leanchecker('Rivia.Props.C02,Rivia.Props.C02M,Rivia.Props.C02R,Rivia.Props.C02T')
+        okc, logc, dtc = vlib.leanchecker('Rivia.Props.C02,Rivia.Props.C02M,Rivia.Props.C02R,Rivia.Props.C02T,Rivia.Props.C02RM')
         lc = dict(ok=okc, seconds=round(dtc, 1), scope=logc[:80])
         if not okc:
             proof_broken.append('leanchecker rejects Rivia.Props.C02: ' + logc[-500:])
